@@ -11,6 +11,7 @@ GUARD = "COLVARS_VERIF"
 
 CXX_VARIANTS = {
     "plain": ["-O1", "-g0"],
+    "cov": ["-O0", "-g", "--coverage"],     # line coverage of /repo/src (gcov), used by slices to measure what their streams reach
     "asan": ["-O1", "-g", "-fsanitize=address,undefined", "-fno-sanitize-recover=all",
              "-fno-omit-frame-pointer"],
 }
